@@ -53,6 +53,8 @@ type c04Case struct {
 	Expr *c04Expr `json:"expr"`
 	Vars []c04Var `json:"vars"`
 	Src  string   `json:"src"` // printed form (informational; recomputed by the judge)
+	// StructCtx: the context is a pointer to a struct with one field per variable (addressable storage) instead of a map
+	StructCtx bool `json:"struct_ctx,omitempty"`
 }
 
 // values of basic kinds whose types have a String method: concatenated (and printed) through that method
@@ -119,6 +121,11 @@ var c04Strs = []string{"", "a", "ab", "b"}
 func (g *c04Gen) numLeaf() *c04Expr {
 	switch g.n(0, 9, "numleaf") {
 	case 0, 1, 2: // integral literal
+		if g.n(0, 7, "charLiteral") == 0 {
+			// a character constant is a numeric literal like any other (its code point, a floating-point operand)
+			ch := []rune{'a', '0', 'A', '\n', 'é'}[g.n(0, 4, "char")]
+			return &c04Expr{Op: "num", Num: float64(ch), Text: strconv.QuoteRune(ch)}
+		}
 		v := c04Ints[g.n(0, len(c04Ints)-1, "ilit")]
 		txt := strconv.FormatInt(v, 10)
 		if g.n(0, 5, "dotzero") == 0 {
@@ -256,7 +263,20 @@ func (g *c04Gen) boolean(d int) *c04Expr {
 		return g.style(&c04Expr{Op: "bin", Bop: op, A: g.num(d - 1), B: g.num(d - 1)})
 	case 3, 4:
 		op := []string{"==", "!="}[g.n(0, 1, "eq")]
-		switch g.n(0, 4, "eqkind") {
+		switch g.n(0, 5, "eqkind") {
+		case 5:
+			// the same operand on both sides: equal to itself - unless it is a NaN
+			var a *c04Expr
+			switch g.n(0, 2, "sameOperand") {
+			case 0:
+				a = g.addVar(c04Var{Kind: "nan"})
+			case 1:
+				a = g.addVar(c04Var{Kind: "float64", F: c04Floats[g.n(0, len(c04Floats)-1, "samef")]})
+			default:
+				a = g.numLeaf()
+			}
+			b := *a
+			return g.style(&c04Expr{Op: "bin", Bop: op, A: a, B: &b})
 		case 4:
 			// values of defined string / bool types (no methods) against plain ones, in either order
 			var a, b *c04Expr
@@ -304,7 +324,7 @@ func genC04(t *rapid.T) c04Case {
 	default:
 		e = g.num(d)
 	}
-	c := c04Case{Expr: e, Vars: g.vars}
+	c := c04Case{Expr: e, Vars: g.vars, StructCtx: rapid.IntRange(0, 2).Draw(t, "structContext") == 0}
 	c.Src, _ = c04Print(c.Expr)
 	return c
 }
@@ -852,7 +872,20 @@ func judgeC04(c c04Case) (v core.Verdict) {
 	if sh.field {
 		v.Label("context-field-operand")
 	}
-	o := jetrun.Exec(t, vars, data)
+	var ctx interface{} = data
+	if c.StructCtx && len(c.Vars) > 0 {
+		var fields []reflect.StructField
+		for i, vr := range c.Vars {
+			fields = append(fields, reflect.StructField{Name: fmt.Sprintf("V%d", i), Type: reflect.TypeOf(vr.goValue())})
+		}
+		sv := reflect.New(reflect.StructOf(fields))
+		for i, vr := range c.Vars {
+			sv.Elem().Field(i).Set(reflect.ValueOf(vr.goValue()))
+		}
+		ctx = sv.Interface()
+		v.Label("context-is-a-pointer-to-a-struct")
+	}
+	o := jetrun.Exec(t, vars, ctx)
 	if o.Failed() {
 		v.Failf("%s (vars %+v) should evaluate to %q but failed: %s", tpl, c.Vars, wantStr, o)
 		return
